@@ -549,8 +549,14 @@ func c12Program(c *core.Ctx) {
 	time.Sleep(time.Duration(c.Rng.IntN(800)) * time.Microsecond)
 	// close in a random order
 	c.Rng.Shuffle(len(p.closers), func(i, j int) { p.closers[i], p.closers[j] = p.closers[j], p.closers[i] })
-	for _, cl := range p.closers {
-		cl()
+	// (the closers make their Close calls under a bound of their own; the read-only calls around them — Slice, Size,
+	// Diff on a closed handle — are covered by this one)
+	if !core.AwaitDone(core.Go(func() {
+		for _, cl := range p.closers {
+			cl()
+		}
+	}), 40000) {
+		p.problem("blocked", "closing the handles and reading them back (Slice/Size/Diff/Get on closed handles) did not complete:\n%s", core.DumpAll())
 	}
 	for _, cancel := range p.cancels {
 		cancel()
